@@ -499,11 +499,15 @@ def run(facts, rep, tier, ctx):
     for o in scratch.obligations:
         if o["rule"] == "R06.4":
             rep.ob("R12.3c", o["fn"], o["key"].split("|")[2], o["ok"], o["detail"], o["loc"])
-    scratch = Report("y")
-    c01.table_m(facts, scratch, "M", "Mk", ops_filter=("create_dir",))
-    for o in scratch.obligations:
-        if o["rule"] == "Mk":
-            rep.ob("R12.3e", o["fn"], o["key"].split("|")[2], o["ok"], o["detail"], o["loc"])
+    # (all classification rows of Table M — which kind answers which state — on both in-memory backends)
+    for wm_ in (ws, wa):
+        if not wm_.present():
+            continue
+        scratch = Report("y")
+        c01.table_m(facts, scratch, "M", "Mk", self_ty=wm_.memory, trait=wm_.trait.rsplit("::", 1)[1])
+        for o in scratch.obligations:
+            if o["rule"] == "Mk":
+                rep.ob(("A/" if wm_.asyncw else "") + "R12.3e", o["fn"], o["key"].split("|")[2], o["ok"], o["detail"], o["loc"])
     physrules.table_o_shape(facts, rep, "R12.3e", ws)
     physrules.mkdir_not_asked(facts, rep, "R12.3e", ws, D)
     # optional operations an adapter forwards keep the NotSupported class of the layer they act on: an overlay setter must
